@@ -29,6 +29,12 @@ func (r *ringBuf) Write(p []byte) (int, error) {
 	return len(p), nil
 }
 
+func (r *ringBuf) reset() {
+	r.mu.Lock()
+	r.buf = nil
+	r.mu.Unlock()
+}
+
 func (r *ringBuf) String() string {
 	r.mu.Lock()
 	defer r.mu.Unlock()
@@ -88,7 +94,7 @@ func (p *Pool) start() (*workerProc, error) {
 		return nil, err
 	}
 	cmd.ExtraFiles = []*os.File{pw}
-	rb := &ringBuf{max: 16 << 10}
+	rb := &ringBuf{max: 64 << 10}
 	cmd.Stderr = rb
 	cmd.Stdout = nil
 	if err := cmd.Start(); err != nil {
@@ -186,6 +192,11 @@ func (p *Pool) await(wp *workerProc, req *Request) *Outcome {
 				dec := json.NewDecoder(bytes.NewReader([]byte(line[7:])))
 				if err := dec.Decode(&o); err != nil {
 					return &Outcome{Seed: req.Seed, HarnessErr: "bad result: " + err.Error()}
+				}
+				// race detector reports of a -race build arrive on the worker's stderr
+				if st := wp.stderr.String(); isRaceReport(st) {
+					o.Race = tail(st, 6000)
+					wp.stderr.reset()
 				}
 				return &o
 			case strings.HasPrefix(line, "ERROR "):
